@@ -38,7 +38,7 @@ def _file(c, K, shape, J=0):
         prev = q
         qs.append(q)
     src = NLStr(n, [SymInt(p) for p in ps], [SymInt(q) for q in qs])
-    tf = TemplatedFile.__new__(TemplatedFile)
+    tf = TemplatedFile(source_str="", fname="f")   # REAL constructor, fields then replaced by the abstract file
     tf.source_str = src
     tf.templated_str = src
     tf.fname = "f"
